@@ -201,10 +201,18 @@ def proof_stage(prop):
 # ---------------------------------------------------------------- running both sides
 
 def run_harness(sub, cases_text, extra=None, timeout=600):
+    """Run the Go harness; returns (rc, stdout). The engine's own diagnostics go to stderr and are dropped."""
     os.makedirs(os.path.join(BUILD, "tmp"), exist_ok=True)
-    rc, out = sh([HARNESS_BIN, sub, "-"] + (extra or []), input=cases_text, timeout=timeout,
-                 cwd=os.path.join(BUILD, "tmp"))
-    return rc, out
+    try:
+        p = subprocess.run([HARNESS_BIN, sub, "-"] + (extra or []), input=cases_text, timeout=timeout,
+                           cwd=os.path.join(BUILD, "tmp"), stdout=subprocess.PIPE, stderr=subprocess.PIPE,
+                           text=True, errors="replace")
+        if p.returncode != 0:
+            return p.returncode, p.stdout + "\n[stderr tail] " + p.stderr[-1500:]
+        return 0, p.stdout
+    except subprocess.TimeoutExpired as e:
+        out = e.stdout if isinstance(e.stdout, str) else (e.stdout or b"").decode(errors="replace")
+        return 124, out + "\n[timeout after %ss]" % timeout
 
 
 def run_model(driver, cases_text, timeout=600):
